@@ -18,6 +18,7 @@ CONSTANTS
   MaxClk = 0
   OldPopOrder = FALSE
   OldTimeCharge = FALSE
+  OldThrInherit = FALSE
   NCo = 0
   XFlags = {}
   MaxDepth = 64
